@@ -21,15 +21,17 @@ func Harness_C04_index_header_positions() {
 	b0 := vm.Int64("oldBlock", 0, rs-1)
 	lr0 := vm.Int64("oldLastRecord", 0, 1<<20)
 	lb0 := vm.Int64("oldLastBlock", 0, rs-1)
-	vm.Assume(lr0*rs+lb0 >= r0*rs+b0) // last-known is never before the content position
+	// (positions are compared record first, then block: the same order as record*rs+block because 0 <= block < rs,
+	// without 64-bit multiplications in the queries, which took z3 up to 18 s each)
+	vm.Assume(vm.Or(lr0 > r0, vm.And(lr0 == r0, lb0 >= b0))) // last-known is never before the content position
 	p.VerifInsert(&models.Header{Name: "/m1", Typeflag: tar.TypeReg, Size: 3, Record: r0, Block: b0, Lastknownrecord: lr0, Lastknownblock: lb0, Paxrecords: "{}"})
 	// an unrelated row with its own positions
 	p.VerifInsert(&models.Header{Name: "/other", Typeflag: tar.TypeReg, Record: 1, Block: 2, Lastknownrecord: 1, Lastknownblock: 2, Paxrecords: "{}"})
 
 	rec := vm.Int64("record", 0, 1<<20)
 	blk := vm.Int64("block", 0, rs-1)
-	vm.Assume(rec*rs+blk > lr0*rs+lb0) // the record being indexed lies after everything indexed so far
-	vm.Assume(rec*rs+blk > 1*rs+2)
+	vm.Assume(vm.Or(rec > lr0, vm.And(rec == lr0, blk > lb0))) // the record being indexed lies after everything indexed so far
+	vm.Assume(vm.Or(rec > 1, vm.And(rec == 1, blk > 2)))
 	action := vm.Choice("action", 6)
 	hdr := c04Header("/m1", action)
 	newName := "/m1"
@@ -61,7 +63,7 @@ func Harness_C04_index_header_positions() {
 		vm.Assert("C04.metadata_actions_keep_content_position", row.Record == r0 && row.Block == b0)
 		vm.Assert("C04.metadata_actions_advance_lastknown", row.Lastknownrecord == rec && row.Lastknownblock == blk)
 	}
-	vm.Assert("C04.lastknown_not_before_content", row.Lastknownrecord*rs+row.Lastknownblock >= row.Record*rs+row.Block)
+	vm.Assert("C04.lastknown_not_before_content", vm.Or(row.Lastknownrecord > row.Record, vm.And(row.Lastknownrecord == row.Record, row.Lastknownblock >= row.Block)))
 	vm.Assert("C04.block_in_range_after_action", row.Block >= 0 && row.Block < rs && row.Lastknownblock >= 0 && row.Lastknownblock < rs)
 	vm.Assert("C04.other_row_untouched", other != nil && other.Record == 1 && other.Block == 2 && other.Lastknownrecord == 1 && other.Lastknownblock == 2)
 	lr, lb, lerr := p.GetLastIndexedRecordAndBlock(context.Background(), int(rs))
